@@ -255,6 +255,27 @@ CLAIMED["C19"] = dict(
         "returns its argument (bare list / dict / Any fields): the property does not forbid that and the suites do not flag it.",
    technique="Coq proofs over a heap model of copy_value + copy-value correspondence through id() + aliasing / snapshot / fresh-process "
              "history oracles on the implementation", design="§8 C19")
+CLAIMED["C20"] = dict(
+   text="Machine-checked proof (Coq), partial: the first-parse protocol of BaseParser.resolve_forward_refs as a transition system "
+        "(Model/Concur.v: one step per source line that reads or writes the shared parser state: lock, resolving flag, table of pending "
+        "references, evaluated flags of the ForwardRef cells, field types; threads interleave at every step). For any number of threads, "
+        "any table and fields, module-level or function-local declaration, and every schedule, with no bound on preemptions: no thread "
+        "fails (no KeyError on the table, no unevaluated reference at conversion time) and every finished thread used fully resolved "
+        "field types (C20_no_thread_fails); at most one thread resolves at a time (C20_one_resolver_at_a_time); no reachable state is a "
+        "deadlock (C20_no_deadlock). The same code without the lock is refuted by one-preemption schedules "
+        "(C20_unlocked_refuted, C20_unlocked_local_refuted): the defect repaired in /repo.",
+   note="Trusted: Coq kernel; Model/Concur.v as a description of resolve_forward_refs / _resolve_forward_refs at line granularity, and "
+        "CPython executing one such line without interference on the state it touches (GIL). Tie: the protocol-trace suite runs the real "
+        "code with 2-3 threads under a deterministic line-level scheduler (harness/sched.py, sys.settrace; one worker runs at a time, "
+        "schedule chosen by a seeded PRNG), reads the (thread, event) sequence off the executed lines and requires it to be the run of "
+        "the model under the same schedule, with the same per-thread outcome. Partial: the converter registry (TypeRegistry.resolve cache "
+        "fill), the parser cache (apply_for), nested / shared / inherited parsers and the conversions themselves are not in the model; "
+        "they are explored on the implementation by bounded-preemption search (all single preemptions of the first 140 steps in the "
+        "thorough tier, sampled pairs and triples) over 8 first-use scenarios: a search, not a proof. One defect repaired in /repo "
+        "(unsynchronised first parse: KeyError / unevaluated reference). Registration of converters concurrent with parsing is not "
+        "covered.",
+   technique="Coq invariant proof over an interleaving model of the first-parse protocol (all schedules) + line-level trace replay of the "
+             "real code under a deterministic scheduler + bounded-preemption exploration on the implementation", design="§8 C20")
 NOT_YET = {}
 for i in range(1, 21):
     pid = "C%02d" % i
